@@ -69,3 +69,20 @@ Proof. destruct g; reflexivity. Qed.
 
 Theorem src_buffer_types g : type_in g Source.BUFFER_GEOMETRY_TYPES = is_buffered_type g.
 Proof. destruct g; reflexivity. Qed.
+
+(* ---- the area branch: what compute_affinity does with the three GEOS quantities (the zero-union guard, the division
+   and the clamp to 1) — for every value the library may return ---- *)
+Theorem src_affinity_area a1 a2 i :
+  exists q, Source.compute_affinity_area_tail a1 a2 i = Ok q /\ q == affinity_area a1 a2 i.
+Proof.
+  autounfold with src. unfold affinity_area, py_div.
+  repeat (break_step; cbn [bind]); eexists; (split; [reflexivity|]); try reflexivity; exfalso; q_hyps;
+    repeat match goal with H : ~ _ == _ |- _ => apply H; clear H end; try lra; try (symmetry; lra).
+Qed.
+
+Theorem src_area_range a1 a2 i : 0 <= i -> i <= a1 + a2 ->
+  exists q, Source.compute_affinity_area_tail a1 a2 i = Ok q /\ 0 <= q /\ q <= 1.
+Proof.
+  intros H1 H2. destruct (src_affinity_area a1 a2 i) as (q & Hq & E). exists q. split; [exact Hq|].
+  rewrite E. apply area_range; assumption.
+Qed.
